@@ -115,3 +115,56 @@ REGISTRY["C19"] = {
             "totals are compared with merge counters on the raw coordinate lists. distinct = distinct event-log digest",
     "components": REAL_KERNEL, "assumptions": KERNEL_ASSUME,
 }
+
+
+# ------------------------------------------------------------------------------------ PipelineSim
+from .pipelinesim import PipelineSim  # noqa: E402
+
+REGISTRY["C17"] = {
+    "world": PipelineSim, "level": "fault_enumeration", "budget": kernel_budget(20000, 400000),
+    "rule": "each evaluation is one sampled pipeline (synthetic well-formed read/write traces over 1-3 loop ranks, 1-2 "
+            "tensors, line sizes 1-4 elements, evict-on root or any outer rank, cache capacities from 0 to unbounded; "
+            "or a filterTrace / _combineTraces call) executed once undisturbed through the file seam and judged against "
+            "the reference policy model, then once per file event n of that call with the call aborted (SimAbort, torn "
+            "write) or failed (ENOSPC) at event n and restarted with the same arguments; the restart must return the "
+            "undisturbed result, leave the inputs untouched and remove all temporaries. distinct = distinct event-log "
+            "digest; non-trivial = at least two calls",
+    "components": {
+        "fibertree.model.traffic / format": "real code from /repo working tree",
+        "file_read_backwards, sortedcontainers": "real; they read the real scratch files behind the interposer",
+        "file system": "real files in a per-run scratch directory under /dev/shm behind the interposer: numbered events, worst-case buffering, SimAbort / OSError injected at event n, torn writes",
+        "trace producer": "simulator (synthetic well-formed traces); reference models: window rule, Belady-MIN with bypass (cross-checked by exhaustive search on tiny instances), stable merge, point filter",
+    },
+    "assumptions": [
+        "input traces are well-formed in the sense of C16 (stamps non-decreasing, positions consistent per fiber)",
+        "nothing is required of the aborted call itself (it may leave temporaries)",
+        "exact optimality is demanded for single-binding read-only cache configurations; with writes (pinned staging lines) or several bindings only the metamorphic bounds are demanded",
+        "abort points are enumerated completely per sampled pipeline when it has at most the per-tier cap of file events, sampled otherwise (reported)",
+    ],
+}
+
+
+# ------------------------------------------------------------------------------------ ConvSim
+from .convsim import ConvSim  # noqa: E402
+
+REGISTRY["C13"] = {
+    "world": ConvSim, "level": "exploration", "budget": kernel_budget(20000, 400000),
+    "rule": "PARTIAL: only the two clauses of C13 that depend on something outside one call's arguments are decided. "
+            "(d) seeded fromRandom (fiber and tensor form, depth 1-3) is built 2-4 times while a simulated other consumer "
+            "re-seeds / draws from / builds unseeded tensors with the process-global generator in between; results must "
+            "be identical, inside the shape and full at density 1. (c) tensors / fibers / rank-0 tensors holding explicit "
+            "defaults, empty sub-fibers, float payloads and names are dumped through the file seam onto a path that is "
+            "fresh, holds an older (possibly longer) dump, or a torn dump left by a dump aborted at file event n (every n), "
+            "and loaded back. distinct = distinct event-log digest; non-trivial = at least two constructions or dumps",
+    "components": {
+        "fibertree.core.fiber / tensor (fromRandom, dump, parse, dict2fiber, fromYAMLfile)": "real code from /repo working tree",
+        "yaml": "real",
+        "global random module as seen by fiber.py": "simulator-owned random.Random behind a shim (PRNG seam)",
+        "file system": "real scratch files behind the interposer (worst-case buffering, abort at event n, torn writes)",
+    },
+    "assumptions": [
+        "clauses (a) nest -> tensor -> uncompress and (b) dictionary form are pure functions of their argument and are NOT decided by this technique",
+        "tuple-coordinate tensors are not dumped (the YAML form of tuple coordinates is a separate, recorded finding)",
+        "nothing is required of loading a torn file itself",
+    ],
+}
